@@ -70,12 +70,56 @@ func (c *ctx) packageVisibility() {
 	}
 	var lits []producer
 	var where []string
+	type cand struct {
+		fc   *fileCtx
+		fd   *ast.FuncDecl
+		name string
+	}
+	var cands []cand
 	for _, name := range []string{"funcMap", "typePrinter"} {
 		fc, fd := c.findFunc(c.inter.PkgPath, "generator", name)
 		if fd == nil {
 			c.s.Unk("G31", "generator."+name, "", "function not found")
 			continue
 		}
+		cands = append(cands, cand{fc, fd, name})
+	}
+	// methods of helper structs that hold the generator (`typeQualifier{g *generator}`): the printer moved there
+	for _, fc := range c.files {
+		if fc.pkg != c.inter {
+			continue
+		}
+		for _, d := range fc.file.Decls {
+			fd, ok := d.(*ast.FuncDecl)
+			if !ok || fd.Body == nil || fd.Recv == nil || len(fd.Recv.List) == 0 {
+				continue
+			}
+			rt := info.TypeOf(fd.Recv.List[0].Type)
+			if p, ok := rt.(*types.Pointer); ok {
+				rt = p.Elem()
+			}
+			nt, _ := rt.(*types.Named)
+			if nt == nil || nt.Obj().Name() == "generator" || nt.Obj().Name() == "generatorv2" {
+				continue
+			}
+			st, _ := nt.Underlying().(*types.Struct)
+			holds := false
+			for i := 0; st != nil && i < st.NumFields(); i++ {
+				ft := st.Field(i).Type()
+				if p, ok := ft.(*types.Pointer); ok {
+					ft = p.Elem()
+				}
+				if n2, ok := ft.(*types.Named); ok && n2.Obj().Name() == "generator" && n2.Obj().Pkg() == c.inter.Types {
+					holds = true
+				}
+			}
+			if holds {
+				cands = append(cands, cand{fc, fd, nt.Obj().Name() + "." + fd.Name.Name})
+			}
+		}
+	}
+	for _, cd := range cands {
+		fc, fd, name := cd.fc, cd.fd, cd.name
 		ast.Inspect(fd.Body, func(n ast.Node) bool {
 			switch x := n.(type) {
 			case *ast.KeyValueExpr:
